@@ -33,6 +33,9 @@ def gen_plan(prop, tier, rng, i):
     cfg = M.gen_cfg(rng, prof)
     tries = 0
     while cfg.typical_capacity() > 3000 and tries < 20:
+        if rng.random() < 0.3:
+            cfg.continuous = False  # very high rate: sparse gapped files only
+            break
         cfg = M.gen_cfg(rng, prof)
         tries += 1
     if prop == "C10":
@@ -55,6 +58,8 @@ def gen_plan(prop, tier, rng, i):
         plan["torn"] = [[rng.random(), rng.random()] for _ in range(6 if thorough else 2)]
     if prop == "C09":
         plan["reader_at_frac"] = sorted(rng.random() for _ in range(2))
+        if i % 4 == 1:
+            plan["second_session"] = {"off": rng.choice([0.0, 0.3, 0.9]), "multi": rng.random() < 0.5}
     if prop == "C10":
         if thorough or i % 4 == 0:
             plan["faults"] = "all"
@@ -119,6 +124,7 @@ class Tracker:
         self.unexpected_failure = False
         self.done = False
         self.child_exception = None
+        self.collide_accepted = False
 
     def feed(self, ev):
         e = ev.get("ev")
@@ -126,12 +132,16 @@ class Tracker:
             self.inflight = (ev["call"], ev.get("i"))
             if ev["call"] == "op":
                 op = self.ops[ev["i"]]
-                for a, n in RN.op_samples(self.cfg, op):
-                    self.attempted.add(a, n, op["salt"])
+                if not op.get("collide"):
+                    for a, n in RN.op_samples(self.cfg, op):
+                        self.attempted.add(a, n, op["salt"])
         elif e == "end":
             self.calls.append((ev["call"], ev.get("i"), ev["ok"], ev.get("exc")))
             if ev["call"] == "op" and ev["ok"]:
-                RN.apply_op(self.sess, self.ops[ev["i"]])
+                if self.ops[ev["i"]].get("collide"):
+                    self.collide_accepted = True
+                else:
+                    RN.apply_op(self.sess, self.ops[ev["i"]])
             self.inflight = None
         elif e == "done":
             self.done = True
@@ -226,7 +236,15 @@ class Observer:
             self._v("reader_construct_fails", k, where, "%s: %s" % (type(e).__name__, str(e)[:200]))
         return None
 
+    C06_CLASSES = ("final_file_not_interpretable", "attr_missing", "attr_mismatch", "sequence_num",
+                   "init_utc_timestamp", "computer_time", "properties_file", "file_structure")
+
     def _v(self, cls, k, where, msg, prop=None):
+        if self.prop == "C06" and (prop or self.prop) == "C06" and cls not in self.C06_CLASSES:
+            # the restart tier of C06 decides only "every final file is interpretable on its own"; what the
+            # reader returns across the restart belongs to C02 and is decided there
+            self._cross("C02", cls)
+            return
         in_props = where.get("in_props_creation", False)
         self.res.violate(prop or self.prop, cls, "state %s (%s): %s" % (k, where.get("next_op"), msg),
                          in_props_creation=in_props, phase=where.get("phase"))
@@ -236,7 +254,9 @@ class Observer:
 
     def _emit(self, errs, k, where):
         for prop, cls, msg in errs:
-            if prop == self.prop or (self.prop in ("C02", "C09") and prop in ("C01", "C02")):
+            if self.prop == "C06" and prop == "C02" and cls == "final_file_unreadable":
+                self._v("final_file_not_interpretable", k, where, msg)
+            elif prop == self.prop or (self.prop in ("C02", "C09") and prop in ("C01", "C02")):
                 self._v(cls, k, where, msg)
             else:
                 self._cross(prop, cls)
@@ -254,7 +274,7 @@ class Observer:
             res.probe("crash_with_tmp_open_and_final_present")
         if tmp and tmp[0][2] in fin_T:
             res.probe("tmp_and_final_same_period")
-        if self.prop == "C02":
+        if self.prop in ("C02", "C06"):
             for s in strays:
                 self._v("stray_file", k, where, "unexpected path %s in channel dir" % s)
             # (c) byte stability + (a) raw validity
@@ -424,7 +444,7 @@ def _observe_run(prop, plan, res, kill_at=None, torn_at=None):
                     obs.props_complete = True
                 if _is_final_rename(ev):
                     obs.finalized.add(_T_of(ev.p2))
-                if any(c[0] == "op" and not c[2] for c in tracker.calls):
+                if any(c[0] == "op" and not c[2] and not ops[c[1]].get("collide") for c in tracker.calls):
                     tracker.unexpected_failure = True
                 k += 1
         finally:
@@ -449,6 +469,8 @@ def _observe_run(prop, plan, res, kill_at=None, torn_at=None):
                 if prop == "C09" and sorted(obs.finalized) != exp_T:
                     res.violate(prop, "not_all_visible_after_close",
                                 "finalized by trace %s != expected %s" % (sorted(obs.finalized)[:6], exp_T[:6]))
+            if prop == "C09" and plan.get("second_session") and not tracker.unexpected_failure:
+                _second_session(prop, plan, res, obs, tracker, tree, sc, cfg)
             res.stats["recorder_steps"] = res.stats.get("recorder_steps", 0) + k
             nfiles = len(tracker.model.files())
             res.stats["files"] = res.stats.get("files", 0) + nfiles
@@ -529,8 +551,10 @@ def _restart_run(prop, plan, res, kill_at):
             lo, hi = cfg.window(Tx)
             c2.start = lo + int(plan.get("restart_off", 0.0) * (hi - lo))
         else:
+            # nothing in progress: continue in the period after the last one touched (the one that holds the last
+            # sample may already be finalized, where a write is refused by design - C11)
             vb = t1.attempted.bounds_written()
-            c2.start = (vb[1] + 1) if vb else cfg.start
+            c2.start = (cfg.window(cfg.file_T(vb[1]))[1] + 1) if vb else cfg.start
         cap = cfg.typical_capacity()
         ops2 = [{"op": "w", "rel": 0, "_rel": 0, "len": max(1, min(cap, 50)), "salt": 7001},
                 {"op": "w", "rel": 2 * cap + 3, "_rel": 2 * cap + 3, "len": max(1, min(cap + 2, 60)), "salt": 7002}]
@@ -561,6 +585,59 @@ def _restart_run(prop, plan, res, kill_at):
     finally:
         if not os.environ.get("VSIM_KEEP"):
             shutil.rmtree(sc, ignore_errors=True)
+
+
+def _second_session(prop, plan, res, obs, tracker1, tree, sc, cfg):
+    """C09: the recorder is restarted on the same channel while the readers keep running.  Its first write falls
+    into the file period the first session finalized last (must be refused, the finalized file stays as it is),
+    later writes go to later periods.  The same observer (same long-lived readers, same monotonicity memory)
+    runs at every boundary of the second process."""
+    files = tracker1.model.files()
+    if not files:
+        return
+    lo, hi = cfg.window(files[-1])
+    c2 = M.Cfg(**plan["cfg"])
+    c2.uuid = "sess1"
+    c2.start = lo + int(plan["second_session"]["off"] * (hi - lo))
+    cap = cfg.typical_capacity()
+    room = hi - c2.start + 1
+    ln = max(1, min(room // 2 if plan["second_session"].get("multi") else room + 3, 40))
+    after = room + cap + 2
+    ops2 = [{"op": "w", "rel": 0, "_rel": 0, "len": ln, "salt": 8001, "collide": True},
+            {"op": "w", "rel": after, "_rel": after, "len": max(1, min(cap + 3, 60)), "salt": 8002}]
+    if plan["second_session"].get("multi") and c2.start + ln <= hi:
+        # a second refused write, again starting inside the finalized period
+        ops2.insert(1, {"op": "w", "rel": ln, "_rel": ln, "len": ln, "salt": 8003, "collide": True})
+    t2 = _UnionTracker(tracker1.model, Tracker(c2, ops2))
+    obs.uuid = None
+    node = K.Node(tree, _child(tree, c2, ops2), log_path=os.path.join(sc, "node2.log"))
+    k2 = 0
+    try:
+        while True:
+            ev = node.step()
+            if ev is None:
+                break
+            if isinstance(ev, dict):
+                t2.feed(ev)
+                continue
+            res.trace.add("s2", k2, ev.kind, ev.p1, ev.p2)
+            if not t2.t.unexpected_failure:
+                obs.observe("session2+%d" % k2, ev, t2, "second_session")
+                res.evals += 1
+            node.go()
+            if _is_final_rename(ev):
+                obs.finalized.add(_T_of(ev.p2))
+            if any(c[0] == "op" and not c[2] and not ops2[c[1]].get("collide") for c in t2.t.calls):
+                t2.t.unexpected_failure = True
+            k2 += 1
+    finally:
+        node.kill()
+    if t2.t.collide_accepted:
+        res.violate(prop, "write_into_finalized_period_accepted", "the restarted recorder's write into the file period "
+                    "finalized by the first session was accepted (the published file can no longer stay unchanged)")
+    if not t2.t.unexpected_failure:
+        obs.observe("session2+end", None, t2, "second_session_closed")
+    res.probe("second_session_observed")
 
 
 # --------------------------------------------------------------------------------------
